@@ -14,7 +14,6 @@ import (
 	"deps.dev/util/semver"
 )
 
-var c07D = [...]string{"0", "1", "2", "3"}
 var c07ReqTemplates = []string{"d.0", "[d.0]", "[d.0,d.0]", "[d.0,)", "(,d.0]", "(d.0,d.0)", "[d.0,d.0)"}
 
 func c07Inst(t, tag string) string {
